@@ -34,7 +34,16 @@ func genMsgLen(r *core.Rand, allowBig bool) int {
 }
 
 func signOp(r *core.Rand, big bool) Op {
-	return Op{K: "sign", ML: genMsgLen(r, big), MS: r.Uint64()}
+	op := Op{K: "sign", ML: genMsgLen(r, big), MS: r.Uint64()}
+	switch r.Intn(16) {
+	case 0:
+		op.MK, op.ML = "nil", 0
+	case 1:
+		op.MK = "cap"
+	case 2:
+		op.MK = "prevsig"
+	}
+	return op
 }
 
 // validJump picks a forward target j in [idx, leaves-1]. maxDist bounds the
